@@ -919,15 +919,16 @@ func (w *world) checkUpdate(pos []int, newData, newData2 [][]byte) {
 // replayable case description for the enumerating tests
 
 type caseSpec struct {
-	Op      string   `json:"op"` // grow | reload | proof | update | witness | dup
-	DB      string   `json:"db"`
-	Leaves  []string `json:"leaves"`
-	Pos     []int    `json:"pos,omitempty"`
-	Tamper  []int    `json:"tamper,omitempty"`
-	NewData []string `json:"newData,omitempty"`
-	NewData2 []string `json:"newData2,omitempty"` // second update of the same positions
-	Alias    int      `json:"alias,omitempty"`    // aliasModesFor selector used for the case
-	Index   int      `json:"index,omitempty"`
+	Op       string     `json:"op"` // grow | reload | proof | update | witness | dup | history
+	DB       string     `json:"db"`
+	Leaves   []string   `json:"leaves"`
+	Pos      []int      `json:"pos,omitempty"`
+	Tamper   []int      `json:"tamper,omitempty"`
+	NewData  []string   `json:"newData,omitempty"`
+	NewData2 []string   `json:"newData2,omitempty"` // second update of the same positions
+	Alias    int        `json:"alias,omitempty"`    // aliasModesFor selector used for the case
+	Index    int        `json:"index,omitempty"`
+	Steps    []histStep `json:"steps,omitempty"` // op "history": steps applied to ONE tree object (hist_test.go)
 }
 
 // recFatal turns a failure of an enumerating test into a replay file + test failure.
@@ -962,6 +963,9 @@ func runSpec(f fataler, s caseSpec) {
 	switch s.Op {
 	case "dup":
 		checkDup(f, leaves, s.DB)
+		return
+	case "history":
+		runHistory(f, s.DB, leaves, s.Steps)
 		return
 	}
 	w := buildWorld(f, s.DB, leaves, s.Op == "grow" || len(leaves) <= 64)
